@@ -37,6 +37,26 @@ impl BucketsIter {
     pub fn next(&mut self) -> Option<usize> {
         self.0.next().map(|i| i.get())
     }
+    /// An iterator in the given state: phase 0 = `Start(i)`, 1 = `ZoomIn(i)`,
+    /// 2 = `ZoomOut(i)`, anything else = `Done`.
+    pub fn from_state(d: Distance, phase: u8, i: usize) -> Self {
+        let state = match phase {
+            0 => ClosestBucketsIterState::Start(BucketIndex(i)),
+            1 => ClosestBucketsIterState::ZoomIn(BucketIndex(i)),
+            2 => ClosestBucketsIterState::ZoomOut(BucketIndex(i)),
+            _ => ClosestBucketsIterState::Done,
+        };
+        BucketsIter(ClosestBucketsIter { distance: d, state })
+    }
+    /// The current state, encoded as in [`BucketsIter::from_state`].
+    pub fn state(&self) -> (u8, usize) {
+        match self.0.state {
+            ClosestBucketsIterState::Start(i) => (0, i.get()),
+            ClosestBucketsIterState::ZoomIn(i) => (1, i.get()),
+            ClosestBucketsIterState::ZoomOut(i) => (2, i.get()),
+            ClosestBucketsIterState::Done => (3, 0),
+        }
+    }
 }
 
 /// Result of [`Table::insert_or_update`].
